@@ -40,7 +40,7 @@ def bounds(tier):
 
 
 def shards(tier, seed):
-    ids = uprob.case_ids(tier, uprob.BASE_SLOTS)
+    ids = uprob.case_ids(tier, uprob.BASE_SLOTS) + uprob.intarg_ids()
     return su.chunk_cases(ids, seed, per_level_chunks={0: 1, 1: 16, 2: 64, 3: 256})
 
 
